@@ -191,18 +191,18 @@ PROPS = {
         "assumptions": ["callback: 'registered' is by composition with the SSO theorem - the stored pair is the pair the SSO endpoint persisted (C02_sso_persists_registered_pair); storage is trusted to return what was stored"],
     },
     "C10": {
-        "modules": ["SamlModel.Props.C10", "SamlModel.Props.HandlerGen", "SamlModel.Props.SendBack", "SamlModel.Props.LogoutProps", "SamlModel.Props.AttrQueryProps", "SamlModel.Props.SsoProps", "SamlModel.Props.MetadataGen", "SamlModel.Props.Stateless", "SamlModel.Props.DecodeGen", "SamlModel.Props.MetadataProps"],
-        "translated": ["getResponseCert", "getMetadataCert", "Config_getMetadata", "Provider_GetMetadata", "Provider_metadataHandle", "IdentityProvider_GetMetadata"],
+        "modules": ["SamlModel.Props.C10", "SamlModel.Props.HandlerGen", "SamlModel.Props.SendBack", "SamlModel.Props.LogoutProps", "SamlModel.Props.AttrQueryProps", "SamlModel.Props.SsoProps", "SamlModel.Props.MetadataGen", "SamlModel.Props.Stateless", "SamlModel.Props.DecodeGen", "SamlModel.Props.MetadataProps", "SamlModel.Props.CertGen"],
+        "translated": ["getResponseCert", "getMetadataCert", "Config_getMetadata", "Provider_GetMetadata", "Provider_metadataHandle", "IdentityProvider_GetMetadata", "IdentityProvider_certificateHandleFunc"],
         "trusted_base": COMMON_TRUST + SSO_TRUST + CB_TRUST + [
-            "Model.Metadata (metadata / certificate / readiness handlers): hand model tied by fingerprints and its correspondence; in addition Provider.metadataHandle, Provider.GetMetadata, Config.getMetadata and getMetadataCert are translated on every run and MetadataGen.metadataHandle_spec characterises the regenerated handler for every environment (IdentityProvider.GetMetadata, GetMetadataSigningKey, signature.GetSigner / Create, the write error as typed oracles): C10_generated_metadata_key_failure / _signer_failure (no document when the key or the signer fails), C11_generated_signed_iff_configured; IdentityProviderConfig.getMetadata / IdentityProvider.GetMetadata / GetEntityID are translated standalone (the loop that blanks attribute values through the pointers of a fresh slice is a map in the value model) and C11_generated_metadata states what the regenerated descriptors advertise: SSO / SLO / attribute locations = the endpoints' absolute URLs for the issuer in effect, WantAuthnRequestsSigned verbatim, every key descriptor = the response signing certificate; Model.Logout, Model.AttrQuery, Model.Sso: tied by the refinement proofs over the regenerated handlers",
+            "Model.Metadata (metadata / certificate / readiness handlers): hand model tied by its correspondence, by fingerprints (readiness) and by proof (IdentityProvider.certificateHandleFunc is translated on every run - the local bytes.Buffer is the bytes written to it, pem.Encode a library oracle, w.Header().Set and io.Copy effects - and CertGen.certificateHandle_spec / certificate_refines / C10_generated_certificate_key_failure / C11_generated_certificate_body / C09_generated_certificate_handler are about the regenerated handler); in addition Provider.metadataHandle, Provider.GetMetadata, Config.getMetadata and getMetadataCert are translated on every run and MetadataGen.metadataHandle_spec characterises the regenerated handler for every environment (IdentityProvider.GetMetadata, GetMetadataSigningKey, signature.GetSigner / Create, the write error as typed oracles): C10_generated_metadata_key_failure / _signer_failure (no document when the key or the signer fails), C11_generated_signed_iff_configured; IdentityProviderConfig.getMetadata / IdentityProvider.GetMetadata / GetEntityID are translated standalone (the loop that blanks attribute values through the pointers of a fresh slice is a map in the value model) and C11_generated_metadata states what the regenerated descriptors advertise: SSO / SLO / attribute locations = the endpoints' absolute URLs for the issuer in effect, WantAuthnRequestsSigned verbatim, every key descriptor = the response signing certificate; Model.Logout, Model.AttrQuery, Model.Sso: tied by the refinement proofs over the regenerated handlers",
             "the fault enumeration on the implementation is exhaustive over (endpoint x storage call occurrence of the fault-free run x fault kind), singly and in pairs, for one valid request shape per endpoint",
         ],
         "assumptions": ["a storage operation either succeeds or returns an error / malformed key record; panics inside storage are the integrator's"],
     },
     "C11": {
-        "modules": ["SamlModel.Props.C11", "SamlModel.Props.SendBack", "SamlModel.Props.Stateless", "SamlModel.Props.MetadataGen"],
+        "modules": ["SamlModel.Props.C11", "SamlModel.Props.SendBack", "SamlModel.Props.Stateless", "SamlModel.Props.MetadataGen", "SamlModel.Props.CertGen"],
         "translated": ["IdentityProviderConfig_getMetadata", "IdentityProvider_GetEntityID", "IdentityProvider_GetMetadata", "getMetadataCert", "Config_getMetadata", "Provider_GetMetadata", "Provider_metadataHandle", "Endpoint_Absolute", "Endpoint_Relative", "relativeEndpoint", "absoluteEndpoint", "getResponseCert",
-                       "signatureRedirectVerificationNecessary", "signaturePostVerificationNecessary", "endpointConfigToEndpoints", "NewEndpoint"],
+                       "signatureRedirectVerificationNecessary", "signaturePostVerificationNecessary", "endpointConfigToEndpoints", "NewEndpoint", "IdentityProvider_certificateHandleFunc"],
         "trusted_base": COMMON_TRUST + SSO_TRUST + [
             "Model.Metadata is a hand-written model of getMetadata / GetRoutes / CreateRouter / GetEntityID: tied by fingerprints (C11_source_current) and by the md correspondence (advertised locations and registered routes for every configuration)",
             "gorilla/mux matching is not modelled: 'maps onto a route' is proved on the registered path strings under routesDistinct, and observed by requesting every advertised location",
@@ -212,10 +212,10 @@ PROPS = {
                         "hunsigned (C11_want_signed_means_refused): the XML-DSig validator rejects a document without signature (goxmldsig; sampled)"],
     },
     "C09": {
-        "modules": ["SamlModel.Props.C09", "SamlModel.Props.HandlerGen", "SamlModel.Props.SendBack", "SamlModel.Props.LogoutProps", "SamlModel.Props.AttrQueryProps", "SamlModel.Props.SsoProps", "SamlModel.Props.NewSpGen", "SamlModel.Props.Stateless", "SamlModel.Props.DecodeGen", "SamlModel.Props.MetadataGen", "SamlModel.Props.MetadataProps"],
+        "modules": ["SamlModel.Props.C09", "SamlModel.Props.HandlerGen", "SamlModel.Props.SendBack", "SamlModel.Props.LogoutProps", "SamlModel.Props.AttrQueryProps", "SamlModel.Props.SsoProps", "SamlModel.Props.NewSpGen", "SamlModel.Props.Stateless", "SamlModel.Props.DecodeGen", "SamlModel.Props.MetadataGen", "SamlModel.Props.MetadataProps", "SamlModel.Props.CertGen"],
         "translated": ["NewServiceProvider", "getSigningCertsFromMetadata", "certificateCheckNecessary", "checkCertificate", "equalCertificateText", "checkRequestRequiredContent", "verifyRequestDestinationOfAuthRequest",
                        "verifyRequestDestinationOfAttrQuery", "GetCertsFromKeyDescriptors", "getResponseCert", "GetAcsUrlAndBindingForResponse",
-                       "signaturePostProvided", "signatureRedirectVerificationNecessary", "signaturePostVerificationNecessary", "verifyRedirectSignature", "verifyPostSignature", "Provider_metadataHandle", "Provider_GetMetadata", "Config_getMetadata", "getMetadataCert", "IdentityProvider_GetMetadata", "DecodeAuthNRequest", "DecodeLogoutRequest"],
+                       "signaturePostProvided", "signatureRedirectVerificationNecessary", "signaturePostVerificationNecessary", "verifyRedirectSignature", "verifyPostSignature", "Provider_metadataHandle", "Provider_GetMetadata", "Config_getMetadata", "getMetadataCert", "IdentityProvider_GetMetadata", "DecodeAuthNRequest", "DecodeLogoutRequest", "IdentityProvider_certificateHandleFunc"],
         "trusted_base": COMMON_TRUST + SSO_TRUST + CB_TRUST + SLO_TRUST + AQ_TRUST + [
             "go2lean's panic guards: every pointer dereference / nil-able selector of the translated Go code is emitted as an explicit `if <nil condition> then .panic`; the guard derivation itself is validated by the differential fn/handler ops (model and implementation must agree on panic vs. no panic)",
             "NewServiceProvider / getSigningCertsFromMetadata are translated (standalone): NewSpGen.newServiceProvider_no_panic (for every metadata document and every answer of ParseMetadataXmlIntoStruct / ParseCertificates that honours their contract - no error => a document, no nil certificate - the constructor returns and does not panic) and newServiceProvider_wf (what it hands out carries metadata with an SPSSODescriptor: the SpWF the handler theorems assume)",
